@@ -381,9 +381,19 @@ func driveTiles(t *Tracer, r Rng, n int) {
 			ids := []BID{}
 			ok := true
 			cost := int64(0)
+			edgeCase := r.Chance(0.2) // voxels next to an end of the key range / the lowest and highest index of their zoom
+			if edgeCase {
+				O = r.edgeOffset()
+				az = r.In(maxI(0, E-26), E)
+			}
 			for len(ids) < k {
 				var b BID
-				if len(ids) > 0 && r.Chance(0.4) {
+				if edgeCase {
+					b = r.randomBID(absW, maxI(0, hz-3), 35, 25)
+					c := int64(1) << uint(25-b.V)
+					nz := int64(1) << uint(b.V)
+					b.F = r.Pick(-nz, -nz+1, nz-1, fdiv(r.Pick(0, int64(1)<<uint(minI(E, 40)))-O, c)+r.Pick(-1, 0, 0, 1))
+				} else if len(ids) > 0 && r.Chance(0.4) {
 					b = ids[r.Intn(len(ids))]
 					if r.Chance(0.5) {
 						b.F += r.Pick(-1, 1)
